@@ -13,6 +13,7 @@ Line-protocol driver for C05 (exe `nv_c05`).
   (ts.rules (tsdoc …))   → (rules id …)                        ids of the spec rules (Spec/ValidTs) the resolved
                                                                document violates
   (ts.valid (tsdoc …))   → (valid true|false)                  `TsSpecValid`
+  (ts.all (tsdoc …))     → (all (errs …) (valid b) (rules id …))   the three answers above in one request
   (ts.subtype (tsdoc …) T U) → (sub model spec)                `is_subtype` model (true|false|unknown) and spec covariance
 -/
 open NitroVerif NitroVerif.Gql NitroVerif.CheckTs
@@ -25,6 +26,13 @@ def handle : Sexp → Sexp
   | .list [.atom "ts.check", d] =>
     match Dec.tsDoc d with
     | some T => .list (.atom "errs" :: (checkSchema T).map errSexp)
+    | none => .list [.atom "bad-request"]
+  | .list [.atom "ts.all", d] =>
+    match Dec.tsDoc d with
+    | some T =>
+      .list [.atom "all", .list (.atom "errs" :: (checkSchema T).map errSexp),
+        .list [.atom "valid", Sexp.ofBool (ValidTs.tsSpecValid T)],
+        .list (.atom "rules" :: (ValidTs.violated T).map fun r => .atom r)]
     | none => .list [.atom "bad-request"]
   | .list [.atom "ts.dup", d] =>
     match Dec.tsDoc d with
